@@ -49,6 +49,13 @@ def run(ctx: RuleContext):
     from .c01 import check_eval_discipline
 
     ctx.sub(check_eval_discipline, ctx, "C13.6")
+    ctx.sub(check_bindings_listed_separately, ctx)
+    # C13.7: the '?' leaf label never outlives the leaf check that set it (also when that check raises):
+    # a stale label makes a later misuse of '?' pass silently or be reported with bindings of a leaf
+    # that is not being checked (flag typestate of C16.1, label flag only)
+    from ._flags import run_flag_typestate
+
+    ctx.reuse("C13.7", run_flag_typestate, ctx, "C13.7", only_attr_of=lambda fl: bool(fl.guarded_setters or fl.raising_getters), cg=cg)
 
 
 # ------------------------------------------------------------------------ C13.1
@@ -227,6 +234,83 @@ def check_annotationerror_passthrough(ctx, r):
                         construct=f"{nm}(...): first catching handler is `except {norm(first.type) if first.type is not None else '<bare>'}`")
     ctx.counters["check_try_blocks"] = n
     ctx.floor("C13.2", "check_try_blocks", 2)
+
+
+# ------------------------------------------------------------------------ C13.8
+def check_bindings_listed_separately(ctx):
+    """'lists as current values exactly the bindings in force -- none missing': the axis sizes, the
+    multi-axis shapes and the structures live in three tables that may use the same name (`n` and `*n`);
+    shape_str must list each table on its own.  Folding two of them into one mapping keyed by name loses
+    an entry whenever a name occurs in both."""
+    m = ctx.model
+    f = m.func("_storage.shape_str")
+    ctx.saw(f)
+    p0 = f.params[0] if f.params else None
+    need(p0, "C13.8: shape_str takes no memos")
+    slots = {}  # name -> set of memo slots it derives from
+    for st in walk_scope(f.node):
+        if isinstance(st, ast.Assign) and isinstance(st.value, ast.Name) and st.value.id == p0 and isinstance(st.targets[0], (ast.Tuple, ast.List)):
+            for i, e in enumerate(st.targets[0].elts):
+                if isinstance(e, ast.Name) and e.id != "_" and i < 3:
+                    slots.setdefault(e.id, set()).add(i)
+        if isinstance(st, ast.Assign) and isinstance(st.value, ast.Subscript) and isinstance(st.value.value, ast.Name) and st.value.value.id == p0 \
+                and isinstance(st.value.slice, ast.Constant) and isinstance(st.targets[0], ast.Name) and st.value.slice.value in (0, 1, 2):
+            slots.setdefault(st.targets[0].id, set()).add(st.value.slice.value)
+    need(slots, "C13.8: shape_str does not unpack the memos in a recognised form")
+
+    def of(e):
+        out = set()
+        for x in ast.walk(e):
+            if isinstance(x, ast.Name) and x.id in slots:
+                out |= slots[x.id]
+        return out
+
+    changed = True
+    while changed:
+        changed = False
+        for st in walk_scope(f.node):
+            if isinstance(st, ast.Assign) and len(st.targets) == 1 and isinstance(st.targets[0], ast.Name):
+                new = of(st.value)
+                if new - slots.get(st.targets[0].id, set()):
+                    slots.setdefault(st.targets[0].id, set()).update(new)
+                    changed = True
+    merged = None
+    for x in walk_scope(f.node):
+        is_mapping = False
+        if isinstance(x, ast.Dict) and any(k is None for k in x.keys):
+            is_mapping = True
+        elif isinstance(x, ast.DictComp):
+            is_mapping = True
+        elif isinstance(x, ast.BinOp) and isinstance(x.op, ast.BitOr):
+            is_mapping = True
+        elif isinstance(x, ast.Call) and isinstance(x.func, ast.Name) and x.func.id in ("dict", "ChainMap", "OrderedDict"):
+            is_mapping = True
+        elif isinstance(x, ast.Call) and isinstance(x.func, ast.Attribute) and x.func.attr == "update":
+            is_mapping = True
+        elif isinstance(x, ast.AugAssign) and isinstance(x.op, ast.BitOr):
+            is_mapping = True
+        if is_mapping and len(of(x) & {0, 1, 2}) >= 2:
+            merged = x
+            break
+    if merged is not None:
+        names = {0: "axis sizes", 1: "multi-axis shapes", 2: "structures"}
+        which = " and ".join(names[i] for i in sorted(of(merged) & {0, 1, 2}))
+        ctx.bad("C13.8", f, merged, f"shape_str folds the {which} into one mapping keyed by name (`{short(merged, 70)}`): a name bound in both tables "
+                "(`n` and `*n`) is listed once, so a binding in force is missing from the error message", construct=f"shape_str merges tables: {short(merged, 70)}")
+        return
+    listed = set()
+    for x in walk_scope(f.node):
+        if isinstance(x, (ast.For, ast.comprehension)):
+            listed |= of(x.iter)
+    missing = {0, 1, 2} - listed
+    if missing and any(isinstance(x, ast.Call) and m.resolve_call(f, x).kind == "func" for x in walk_scope(f.node)):
+        raise AnalysisError("C13.8: shape_str hands the tables to a helper; which of them are listed was not followed")
+    if missing:
+        names = {0: "axis sizes", 1: "multi-axis shapes", 2: "structures"}
+        ctx.bad("C13.8", f, f.node, f"shape_str never iterates the table of {', '.join(names[i] for i in sorted(missing))}: those bindings are missing from every error message",
+                construct=f"shape_str: tables not listed {sorted(missing)}")
+    else:
+        ctx.ok("C13.8", f.qualname, "the three tables (sizes, multi-axis shapes, structures) are each iterated on their own; no mapping merges two of them")
 
 
 # ------------------------------------------------------------------------ C13.3
